@@ -9,6 +9,20 @@ open Apollo.Rowan hiding Str
 open Apollo.Lex hiding Str
 open Apollo.FromCst (OptArgs OptDirs DirsNode ArgsNode SelTree SelSetNode SelsTree OptSS AliasPre TcPre)
 
+/-! ### well-formedness facts carried by the accepted arguments / directives -/
+
+theorem argsOk_wf (c : Bool) : ∀ args : List (Ast.Str × Ast.Value), argsOk c args → Ast.wfArgs args = true
+  | [], _ => rfl
+  | a :: r, h => by
+    simp only [Ast.wfArgs, Bool.and_eq_true]
+    exact ⟨valueOk_wf c a.2 (h a List.mem_cons_self), argsOk_wf c r (fun b hb => h b (List.mem_cons_of_mem _ hb))⟩
+
+theorem dirsOk_wf (c : Bool) : ∀ ds : List Ast.Directive, dirsOk c ds → Ast.wfDirs ds = true
+  | [], _ => rfl
+  | d :: r, h => by
+    simp only [Ast.wfDirs, Bool.and_eq_true]
+    exact ⟨argsOk_wf c d.args (h d List.mem_cons_self), dirsOk_wf c r (fun b hb => h b (List.mem_cons_of_mem _ hb))⟩
+
 /-! ### `peek_while` with a captured flag -/
 
 theorem tr_flagLoop {E : PState → Prop} (hE : Early E) (body : Kind → PI (Bool × Bool)) (Q : List Tok → List Elem → Prop)
@@ -159,7 +173,7 @@ theorem tr_fragmentName {H : List Tok → Prop} :
 
 /-- ONE selection: the tokens `tSel sel` and the tree `SelTree sel` -/
 def SelR (cs : List Tok) (e : List Elem) : Prop :=
-  ∃ (sel : Ast.Sel) (es : Elem), TokIs cs (Ast.tSel sel) ∧ e = [es] ∧ SelTree sel es
+  ∃ (sel : Ast.Sel) (es : Elem), TokIs cs (Ast.tSel sel) ∧ Ast.wfSel sel = true ∧ e = [es] ∧ SelTree sel es
 
 theorem tr_fragmentSpread (n : Nat) : Tr NoE (HeadK .spread) (fragmentSpread n) (fun _ => SelR) := by
   unfold fragmentSpread
@@ -174,11 +188,13 @@ theorem tr_fragmentSpread (n : Nat) : Tr NoE (HeadK .spread) (fragmentSpread n) 
   refine (tr_withNode early_false "FRAGMENT_SPREAD" (hsig_headK .spread rfl) (hb.mono (fun _ h => headP_of_headK h) (fun _ _ _ h => h))).mono
     (fun _ h => h) ?_
   rintro _ cs e ⟨inner, rfl, _, c1, c2, e1, e2, rfl, hin, ⟨t, hk, _, rfl, rfl⟩, _, c3, c4, e3, e4, rfl, rfl,
-    ⟨t2, fin, hk2, hv2, _, rfl, rfl, hfin⟩, ds, hd1, _, hd3⟩
-  refine ⟨.spread t2.data ds, _, ?_, rfl, SelTree.spread t2.data ds inner fin e4 t.data hv2 hd3 hfin (by rw [hin]; simp)⟩
+    ⟨t2, fin, hk2, hv2, hon, rfl, rfl, hfin⟩, ds, hd1, hd2, hd3⟩
   have h1 : TokIs [t] [Ast.Tok.p .spread] := TokIs.single t _ (by simp [astOfV, hk])
   have h2 : TokIs [t2] [Ast.Tok.name t2.data] := TokIs.single t2 _ (by simp [astOfV, hk2])
-  have := h1.append (h2.append hd1)
-  simpa [Ast.tSel] using this
+  refine ⟨.spread t2.data ds, _, ?_, ?_, rfl, SelTree.spread t2.data ds inner fin e4 t.data hv2 hd3 hfin (by rw [hin]; simp)⟩
+  · have := h1.append (h2.append hd1)
+    simpa [Ast.tSel] using this
+  · simp only [Ast.wfSel, Bool.and_eq_true, bne_iff_ne, ne_eq, Ast.sOn]
+    exact ⟨hon, dirsOk_wf false ds hd2⟩
 
 end Apollo.Parse
